@@ -29,7 +29,7 @@ type c05Spec struct {
 	Maint    string `json:"maintenance"`   // none full_requested full_acked light
 	LastSw   string `json:"last_switch"`   // none auto_young auto_old manual_young
 	Master   string `json:"master_cond"`   // mysql_crash host_dead flapping ro_fs crash_recovered unreachable_from_manager zk_only_loss suspicious_between_bad
-	Replicas string `json:"replica_state"` // ok one_dead all_dead one_stopped
+	Replicas string `json:"replica_state"` // ok one_dead all_dead one_stopped one_status_fails
 	List     string `json:"active_list"`   // full master_plus_one
 	Handover bool   `json:"manager_handover"`
 	Rejected bool   `json:"manual_request_rejected_after_the_last_failover"` // last_rejected_switch holds a manual request initiated after the last (automatic) switch
@@ -76,6 +76,13 @@ func c05Gen(seed int64, idx int) c05Spec {
 	if (idx/len(c05Masters))%9 == 7 && (idx/(9*len(c05Masters)))%2 == 0 {
 		// the quorum edge: count 2 with a list of three - one dead replica closes the gate (quorum 3 - min(1, 2) = 2 alive)
 		sp.N, sp.W, sp.SemiSync, sp.Replicas, sp.List, sp.Casc = 3, 2, true, "one_dead", "full", false
+		if (idx/(9*len(c05Masters)))%4 == 2 {
+			// ... or one replica answers pings while its replication status cannot be collected: not a known-alive replica
+			sp.Replicas = "one_status_fails"
+			if sp.Master != "suspicious_between_bad" {
+				sp.DelayS = 0 // the failover is decided before the inactivation delay takes the replica off the list
+			}
+		}
 	}
 	return sp
 }
@@ -463,8 +470,20 @@ func c05Run(u *Unit) {
 			}
 		case "one_stopped":
 			s.W.Manual(hosts[1], "stop replica", func(x *world.Server) { x.IORun, x.SQLRun = false, false })
+		case "one_status_fails":
+			s.W.Lock()
+			s.W.Fault = func(c *world.StmtCtx) world.FaultAction {
+				if c.Host == hosts[1] && c.Class == "replica_status" && c.Caller != "mysync_"+hosts[1] {
+					return world.FaultAction{Kind: "fail", Errno: 1105}
+				}
+				return world.FaultAction{}
+			}
+			s.W.Unlock()
+			sc.Cover("replica-status-of-a-pinging-replica-fails")
 		}
-		if sp.Replicas != "ok" {
+		if sp.Replicas != "ok" && sp.Replicas != "one_status_fails" {
+			// (a replica whose status cannot be collected leaves the list in the next iteration that evaluates it: that
+			// condition begins together with the master's, so that the failover is decided on the full list)
 			time.Sleep(3 * time.Second)
 		}
 		if sp.Maint == "full_requested" {
